@@ -164,18 +164,28 @@ class Ctx:
             ok = False
             self.broken.append("lean-audit")
             print(aout[-3000:])
-        # banned tokens in sources (comments stripped)
+        # banned tokens in the sources this property depends on (transitive SV.* imports of its
+        # modules and drivers; comments stripped)
         banned_hits = []
-        for root, _, files in os.walk(os.path.join(LEAN, "SV")):
-            for fn in files:
-                if not fn.endswith(".lean") or fn == "AuditTool.lean":
-                    continue
-                src = open(os.path.join(root, fn)).read()
-                src = re.sub(r"/-.*?-/", "", src, flags=re.S)
-                for i, line in enumerate(src.split("\n")):
-                    line = re.sub(r"--.*", "", line)
-                    if BANNED.search(line):
-                        banned_hits.append(f"{fn}:{line.strip()[:80]}")
+        todo = list(modules) + [f"SV.Driver.{d.split('_')[-1].upper()}" for d in drivers]
+        seen = set()
+        while todo:
+            m = todo.pop()
+            if m in seen or not m.startswith("SV") or m == "SV.AuditTool":
+                continue
+            seen.add(m)
+            fn = os.path.join(LEAN, *m.split(".")) + ".lean"
+            if not os.path.exists(fn):
+                continue
+            src = open(fn).read()
+            for im in re.findall(r"^\s*import\s+(\S+)", src, re.M):
+                todo.append(im)
+            src = re.sub(r"/-.*?-/", "", src, flags=re.S)
+            for line in src.split("\n"):
+                line = re.sub(r"--.*", "", line)
+                if BANNED.search(line):
+                    banned_hits.append(f"{os.path.basename(fn)}:{line.strip()[:80]}")
+        self.cov["lean_sources_scanned"] = sorted(seen)
         if banned_hits:
             ok = False
             self.broken.append("banned-token:" + banned_hits[0])
